@@ -128,6 +128,49 @@ def ev(e, env, enums=None):
     raise Unknown(k)
 
 
+def step(u, env, enums=None):
+    """Apply the effect of one expression statement on the integer locals in env: ++/--, =, op= on a local.
+    Calls and statements that touch no local in env are skipped; anything else on a tracked local raises Unknown."""
+    if not isinstance(u, dict):
+        return
+    k = u.get("k")
+    if k == "Un" and u.get("op") in ("pre++", "post++", "pre--", "post--"):
+        p = path(u.get("e"))
+        key = path_str(p) if p else None
+        if key in env:
+            env[key] = wrap(env[key] + (1 if "++" in u["op"] else -1), unwrap(u["e"]).get("t"), enums)
+        return
+    if k == "Bin" and u.get("op", "").endswith("=") and u["op"] not in ("==", "!=", "<=", ">="):
+        p = path(u.get("lhs"))
+        key = path_str(p) if p else None
+        if key in env or (key and key.startswith("l:") and u["op"] == "="):
+            if u["op"] == "=":
+                try:
+                    env[key] = wrap(ev(unwrap(u["rhs"]), env, enums), unwrap(u["lhs"]).get("t"), enums)
+                except Unknown:
+                    env.pop(key, None)
+            else:
+                fake = {"k": "Bin", "op": u["op"][:-1], "lhs": u["lhs"], "rhs": u["rhs"], "t": u.get("comptype") or u.get("t")}
+                env[key] = wrap(ev(fake, env, enums), unwrap(u["lhs"]).get("t"), enums)
+        return
+    if k == "Decl":
+        for v in u.get("vars", []):
+            if v.get("init") is not None and "n" in v:
+                try:
+                    env["l:%s#%s" % (v["n"], v["id"])] = ev(unwrap(v["init"]), env, enums)
+                except Unknown:
+                    pass
+        return
+    # any nested modification of a tracked local inside a larger expression is not understood
+    for n in ir.walk(u):
+        if n is u:
+            continue
+        if n.get("k") == "Un" and n.get("op") in ("pre++", "post++", "pre--", "post--"):
+            p = path(n.get("e"))
+            if p and path_str(p) in env:
+                raise Unknown("nested update of %s" % path_str(p))
+
+
 def run_straightline(stmts, env, enums=None, stop_at=None):
     """Interpret a statement list over env following only evaluable branches.
     Returns ('throw', node) | ('return', node) | ('reached', node) | ('end', None) | ('unknown', node)."""
